@@ -67,11 +67,27 @@ def features(steps, rate, accel):
     return f
 
 
+def frozen_answer(inp):
+    import kf_c03_frozen
+    saved = mpmath.mp.dps
+    try:
+        mpmath.mp.dps = 15
+        return tuple(int(x) for x in kf_c03_frozen.calculate_lm(*inp))
+    except Exception:      # noqa
+        return None
+    finally:
+        mpmath.mp.dps = saved
+
+
 def classify(inp, got, exp):
-    """attribute a disagreement to a frozen known-finding region (id) or None"""
+    """attribute a disagreement to a frozen known-finding region (id) or None.
+    A known finding is a SPECIFIC wrong answer on a specific input: the real function must return exactly what the frozen snapshot of
+    the pinned code returns there; a different wrong answer in the same region is a new violation."""
     steps, rate, accel, accum = inp
     f = features(steps, rate, accel)
     dur, pos, acc = got
+    if tuple(got) != frozen_answer(inp):
+        return None
     if f.get('reverses') and f.get('t_rev') == 1 and f.get('r1') != 0 and not (0 <= acc < M):
         return 'KF-C03-1'
     if f.get('reverses') and f.get('t_rev', 0) > 1 and acc in (-1, M) and dur == exp[0] - 1:
